@@ -644,6 +644,22 @@ func (c *VCtx) translateCall(sc *Scope, x *ECall) Val {
 	case "calls":
 		h := c.heap(st, "G:calls", ArrSort(SRef, SInt))
 		return Select(h, arg(0))
+	case "elemat":
+		// elemat(s, k): element at absolute position k of the backing array of slice s
+		b := arg(0)
+		var es Sort = SInt
+		var et types.Type
+		if b.GT != nil {
+			et = b.GT.Underlying().(*types.Slice).Elem()
+			es = sortOf(et)
+		}
+		h := c.heap(st, elemHeapName(es), ArrSort(SRef, ArrSort(SInt, es)))
+		r := Select(Select(h, SlArr(b)), arg(1))
+		r.GT = et
+		if et != nil {
+			return c.typed(r, et)
+		}
+		return r
 	case "card":
 		return T(SInt, app("card", arg(0)))
 	case "fin":
